@@ -588,12 +588,12 @@ theorem overlap_filter_tables_accepts (f : OverlapFilterObj) (a : TableArgs) (os
     ∃ fr, overlapFilterTables f a oss tok cpu = .ok fr :=
   overlapFilterTables_total f a oss tok cpu l r hv hb
 
-/-- `apply_matcher`: validated arguments, candidate keys present in the tables and — when a tokenizer is given — string
+/-- `apply_matcher`: validated arguments, candidate keys present in the tables (up to Python equality, `PyMem`) and — when a tokenizer is given — string
     match columns ⇒ a DataFrame (with the candset's columns if the candset is empty, else the output header). -/
 theorem apply_matcher_accepts (a : MatcherArgs) (t : Option TokObj) (toks : TokFn) (sim : SimArg → SimArg → PyV)
     (cpu : Int) (c l r : Frame) (hv : validateMatcher a t = .ok (c, l, r))
-    (hl : ∀ cr ∈ c.rows, cr.cell (c.colIdx a.candLKey) ∈ l.col a.lKey)
-    (hr : ∀ cr ∈ c.rows, cr.cell (c.colIdx a.candRKey) ∈ r.col a.rKey)
+    (hl : ∀ cr ∈ c.rows, PyMem (cr.cell (c.colIdx a.candLKey)) (l.col a.lKey))
+    (hr : ∀ cr ∈ c.rows, PyMem (cr.cell (c.colIdx a.candRKey)) (r.col a.rKey))
     (hlen : c.rows.length < 2 ^ 40)
     (hstr : t.isSome → StrColumn l a.lAttr ∧ StrColumn r a.rAttr) :
     ∃ fr, applyMatcher a t toks sim cpu = .ok fr := by
@@ -605,8 +605,8 @@ theorem apply_matcher_accepts (a : MatcherArgs) (t : Option TokObj) (toks : TokF
     candset's. -/
 theorem filter_candset_accepts (a : CandsetArgs) (fp : Cell → Cell → Except PyErr Bool) (cpu : Int) (c l r : Frame)
     (hv : validateCandset a = .ok (c, l, r))
-    (hl : ∀ cr ∈ c.rows, cr.cell (c.colIdx a.candLKey) ∈ l.col a.lKey)
-    (hr : ∀ cr ∈ c.rows, cr.cell (c.colIdx a.candRKey) ∈ r.col a.rKey)
+    (hl : ∀ cr ∈ c.rows, PyMem (cr.cell (c.colIdx a.candLKey)) (l.col a.lKey))
+    (hr : ∀ cr ∈ c.rows, PyMem (cr.cell (c.colIdx a.candRKey)) (r.col a.rKey))
     (hlen : c.rows.length < 2 ^ 40)
     (hfp : ∀ ls ∈ l.rows, ∀ rs ∈ r.rows, ∃ b, fp (valOf l a.lAttr ls) (valOf r a.rAttr rs) = .ok b) :
     ∃ fr, filterCandset a fp cpu = .ok fr ∧ fr.columns = c.columns ∧ fr.dtypes = c.dtypes ∧
